@@ -45,6 +45,27 @@ end Filler
 
 /-! ## wire types (`wiretypes.go`) -/
 
+/-- `binary.BigEndian.PutUint16(data[i:], v)` for `i+2 ≤ len(data)` -/
+def putU16 (b : Bytes) (i : Nat) (v : UInt16) : Bytes :=
+  (b.set i (UInt8.ofNat (v.toNat / 256))).set (i + 1) (UInt8.ofNat (v.toNat % 256))
+
+/-- `binary.BigEndian.PutUint32(data[i:], v)` for `i+4 ≤ len(data)` -/
+def putU32 (b : Bytes) (i : Nat) (v : UInt32) : Bytes :=
+  (((b.set i (UInt8.ofNat (v.toNat / 16777216))).set (i + 1) (UInt8.ofNat (v.toNat / 65536 % 256))).set (i + 2)
+    (UInt8.ofNat (v.toNat / 256 % 256))).set (i + 3) (UInt8.ofNat (v.toNat % 256))
+
+/-- `binary.BigEndian.Uint16(data)` for `2 ≤ len(data)` (the Go call panics on a shorter slice; the decoders guard it) -/
+def beU16 (d : Bytes) : UInt16 :=
+  match d with
+  | a :: b :: _ => UInt16.ofNat (a.toNat * 256 + b.toNat)
+  | _ => 0
+
+/-- `binary.BigEndian.Uint32(data)` for `4 ≤ len(data)` -/
+def beU32 (d : Bytes) : UInt32 :=
+  match d with
+  | a :: b :: c :: e :: _ => UInt32.ofNat (((a.toNat * 256 + b.toNat) * 256 + c.toNat) * 256 + e.toNat)
+  | _ => 0
+
 /-- `bits.fill` / `Ident.fill`: `if len(data) >= i+1 { data[i] = v }; return 1` -/
 def fillByte (v : UInt8) : Filler := fun b i => (if b.length ≥ i + 1 then b.set i v else b, 1)
 
